@@ -174,6 +174,34 @@ fn cmp(actual: &str, expected: &str) -> String {
     }
 }
 
+/// the typed entry points (`SourceMap::from_reader` / `from_slice`, likewise for index and Hermes maps and for
+/// `DecodedMap`) are thin wrappers around `decode` / `decode_slice`; they must agree with each other on every
+/// input under every chunking exactly as the untyped ones do: both succeed with the same serialised map, or both fail
+fn typed_agree(bytes: &[u8], sizes: &[usize]) -> bool {
+    fn ser<M, E>(r: Result<M, E>, w: impl Fn(&M, &mut Vec<u8>) -> bool) -> Option<Vec<u8>> {
+        match r {
+            Ok(m) => {
+                let mut b = vec![];
+                if w(&m, &mut b) {
+                    Some(b)
+                } else {
+                    Some(b"<unserialisable>".to_vec())
+                }
+            }
+            Err(_) => None,
+        }
+    }
+    let a1 = ser(sourcemap::SourceMap::from_reader(ChunkReader::new(bytes, sizes)), |m, b| m.to_writer(b).is_ok());
+    let a2 = ser(sourcemap::SourceMap::from_slice(bytes), |m, b| m.to_writer(b).is_ok());
+    let b1 = ser(sourcemap::SourceMapIndex::from_reader(ChunkReader::new(bytes, sizes)), |m, b| m.to_writer(b).is_ok());
+    let b2 = ser(sourcemap::SourceMapIndex::from_slice(bytes), |m, b| m.to_writer(b).is_ok());
+    let c1 = ser(sourcemap::SourceMapHermes::from_reader(ChunkReader::new(bytes, sizes)), |m, b| m.to_writer(b).is_ok());
+    let c2 = ser(sourcemap::SourceMapHermes::from_slice(bytes), |m, b| m.to_writer(b).is_ok());
+    let d1 = ser(DecodedMap::from_reader(ChunkReader::new(bytes, sizes)), |m, b| m.to_writer(b).is_ok());
+    let d2 = ser(decode_slice(bytes), |m, b| m.to_writer(b).is_ok());
+    a1 == a2 && b1 == b2 && c1 == c2 && d1 == d2
+}
+
 fn chunked(t: &[&str]) -> String {
     let bytes = parse_hex(t[1]);
     let sizes: Vec<usize> = split_list(t[2]).iter().map(|x| x.parse().unwrap_or(1)).collect();
@@ -185,7 +213,7 @@ fn chunked(t: &[&str]) -> String {
         return format!("ok BUF-ASSUMPTION-BROKEN {}", rd.max_buf);
     }
     let as_ = outcome(decode_slice(&bytes), false);
-    let agree = (is_ok(&ar) && ar == as_) || (!is_ok(&ar) && !is_ok(&as_));
+    let agree = ((is_ok(&ar) && ar == as_) || (!is_ok(&ar) && !is_ok(&as_))) && typed_agree(&bytes, &sizes);
     let mut rd2 = ChunkReader::new(&bytes, &sizes);
     let air = is_sourcemap(&mut rd2);
     let ais = is_sourcemap_slice(&bytes);
